@@ -476,12 +476,15 @@ Section Interp.
 Variable fixed_chain : bool.
 
 Definition regex_accepts (id : nat) (s : string) : option (list (string * val)) :=
-  (* catalogue: 0 = "a+" fullmatch; 1 = "(?P<n>[0-9]+)" fullmatch, binds n; 2 = ".*" *)
+  (* catalogue: 0 = "a+" fullmatch; 1 = "(?P<n>[0-9]+)" fullmatch, binds n; 2 = ".*"; 3, 4: the other two matching functions *)
   match id with
   | 0 => if negb (String.eqb s "") && forallb (Ascii.eqb "a"%char) (list_ascii_of_string s) then Some [] else None
   | 1 => if negb (String.eqb s "") && forallb (fun c => match digit_of c with Some _ => true | None => false end) (list_ascii_of_string s)
          then Some [("n", VStr s)] else None
   | 2 => if existsb (Ascii.eqb "010"%char) (list_ascii_of_string s) then None else Some []
+  (* 3 = Regex("a+", func=re.match): a prefix; 4 = Regex("a+", func=re.search): anywhere *)
+  | 3 => match s with String "a"%char _ => Some [] | _ => None end
+  | 4 => if existsb (Ascii.eqb "a"%char) (list_ascii_of_string s) then Some [] else None
   | _ => None end.
 
 Definition construct (t : pytype) (v : val) : res val :=       (* a type used as a callable spec in AUTO / FILL *)
